@@ -8,8 +8,8 @@ matrix `[v]`, which is how `torch.inner` treats it) or, flattened, a `Vec = List
 The two gradients `dLP/dW`, `dLA/dW` and the adversary's gradient `dLA/dU` are INPUTS of the model
 (autograd is trusted); plain SGD is `W - lr * g`.
 
-Which inner product the engine uses (`InnerKind`), which `tiny` it adds to the norm (`TinyKind`) and the
-per-coordinate arithmetic of the normalise/combine lines come from `Generated/AdvProjection.lean`,
+Which inner product the engine uses (`InnerKind`), which norm normalises dLA/dW (`NormKind`), which `tiny` it adds
+to the norm (`TinyKind`) and the per-coordinate arithmetic of the normalise/combine lines come from `Generated/AdvProjection.lean`,
 which the translator regenerates from the Python source on every run.
 
 Square roots do not exist in `Rat`: the model is the `‖b‖`-normalised form
@@ -78,6 +78,40 @@ def sameShape : Mat → Mat → Bool
 def gradWith (k : InnerKind) (A B : Mat) (α : Rat) : Mat :=
   msub (msub A (msmul (inner k B A / frob B B) B)) (msmul α B)
 
+/-! ### the norm that normalises dLA/dW (`NormKind`, lifted from the source)
+
+`unit = B / ‖B‖ₙ`, `proj = <unit, A> = <B,A> / ‖B‖ₙ`, `proj · unit = (<B,A> / ‖B‖ₙ²) B`: only the SQUARE of the norm enters the
+update, which is rational for all three kinds (`frobenius`: the sum of the squares itself, no square root needed). -/
+
+def absR (x : Rat) : Rat := if x < 0 then -x else x
+def maxR (x y : Rat) : Rat := if x < y then y else x
+
+/-- sum of the absolute values of all entries -/
+def l1 (B : Mat) : Rat := ((flat B).map absR).sum
+
+/-- largest absolute value of an entry (0 for the empty tensor) -/
+def maxAbs (B : Mat) : Rat := ((flat B).map absR).foldl maxR 0
+
+/-- the SQUARE of the norm of kind `n` of the whole tensor -/
+def normSq (n : NormKind) (B : Mat) : Rat :=
+  match n with
+  | .frobenius => frob B B
+  | .l1Flat => l1 B * l1 B
+  | .maxAbs => maxAbs B * maxAbs B
+
+/-- the normalised update with inner product `k` and norm kind `n`:  `A - (k(B, A) / ‖B‖ₙ²) B - alpha B` -/
+def gradWithN (k : InnerKind) (n : NormKind) (A B : Mat) (α : Rat) : Mat :=
+  msub (msub A (msmul (inner k B A / normSq n B) B)) (msmul α B)
+
+/-- One pass of the loop body with norm kind `n`.  The zero branch is `B = 0` (every one of the three norms vanishes exactly
+    on the zero tensor: `Lemmas/AdvNorm.lean normSq_eq_zero_iff`). -/
+def engineGradN (k : InnerKind) (n : NormKind) (t : TinyKind) (A B : Mat) (α : Rat) : Option Mat :=
+  if frob B B = 0 then
+    match t with
+    | .float64 => none
+    | .float32 => some A
+  else some (gradWithN k n A B α)
+
 /-- One pass of the loop body for one parameter tensor, as the engine computes it in float32:
     `none` is the all-NaN tensor (0/0: `dLA/dW = 0` and a `tiny` that vanishes in float32);
     with a `tiny` that survives, `unit = 0 / tiny = 0` and the update is `dLP/dW` itself. -/
@@ -106,8 +140,9 @@ def engineGradRaw (unit : Rat → Rat → Rat → Rat) (grad : Rat → Rat → R
   let U := unitMat unit B nrm tiny
   matRaw grad (inner k U A) α A U B
 
-def torchStep (A B : Mat) (α : Rat) : Option Mat := engineGrad torchInner torchTiny A B α
-def tfStep (A B : Mat) (α : Rat) : Option Mat := engineGrad tfInner tfTiny A B α
+/-- the loop body of each engine with ALL its lifted kinds (inner product, norm, regulariser) -/
+def torchStep (A B : Mat) (α : Rat) : Option Mat := engineGradN torchInner torchNorm torchTiny A B α
+def tfStep (A B : Mat) (α : Rat) : Option Mat := engineGradN tfInner tfNorm tfTiny A B α
 
 /-- predictor parameter after the step -/
 def predictorStep (eng : Mat → Mat → Rat → Option Mat) (W A B : Mat) (α lr : Rat) : Option Mat :=
@@ -133,15 +168,18 @@ def parseEngine (s : String) : Option (Mat → Mat → Rat → Option Mat) :=
   | "tf" => some tfStep
   | "ref" => some (fun A B α => some (gradWith .frobenius A B α))
   | "suminner" => some (fun A B α => engineGrad .sumInner .float32 A B α)
+  | "l1" => some (fun A B α => engineGradN .frobenius .l1Flat .float32 A B α)
+  | "maxabs" => some (fun A B α => engineGradN .frobenius .maxAbs .float32 A B α)
   | _ => none
 
 /-- ops:
-  `adv.grad <torch|tf|ref|suminner> <A> <B> <alpha>`       -> combined gradient matrix | `nan`
-  `adv.step <torch|tf|ref|suminner> <W> <A> <B> <alpha> <lr>` -> new parameter matrix | `nan`
+  `adv.grad <torch|tf|ref|suminner|l1|maxabs> <A> <B> <alpha>`       -> combined gradient matrix | `nan`
+  `adv.step <torch|tf|ref|suminner|l1|maxabs> <W> <A> <B> <alpha> <lr>` -> new parameter matrix | `nan`
   `adv.sgd <U> <dU> <lr>`                                   -> new adversary parameter matrix
   `adv.combine <a> <b> <alpha>`                             -> flattened reference update (vector)
   `adv.inner <U> <A>`                                       -> `<frobenius> <sumInner> <flat dot>`
-  `adv.kinds`                                               -> the lifted kinds of both engines -/
+  `adv.kinds`                                               -> the lifted kinds of both engines
+  `adv.normsq <B>`                                          -> `<frobenius²> <l1Flat²> <maxAbs²>` -/
 def handle (toks : List String) : Option String :=
   match toks with
   | ["adv.grad", e, a, b, al] => do
@@ -176,7 +214,12 @@ def handle (toks : List String) : Option String :=
   | ["adv.kinds"] =>
     let f : InnerKind → String := fun k => match k with | .frobenius => "frobenius" | .sumInner => "suminner"
     let g : TinyKind → String := fun k => match k with | .float64 => "float64" | .float32 => "float32"
-    some (s!"torch={f torchInner},{g torchTiny} tf={f tfInner},{g tfTiny}")
+    let h : NormKind → String := fun k => match k with | .frobenius => "frobenius" | .l1Flat => "l1flat" | .maxAbs => "maxabs"
+    some (s!"torch={f torchInner},{g torchTiny},{h torchNorm} tf={f tfInner},{g tfTiny},{h tfNorm}")
+  | ["adv.normsq", b] => do
+    let B ← Proto.parseMat b
+    if B.isEmpty then none
+    else pure (Proto.fmtRat (normSq .frobenius B) ++ " " ++ Proto.fmtRat (normSq .l1Flat B) ++ " " ++ Proto.fmtRat (normSq .maxAbs B))
   | _ => none
 
 end Adversarial
